@@ -387,6 +387,7 @@ func main() {
 	h.escapes(hdeep)
 	lap("places-escapes")
 	h.defforms(mdeep)
+	h.bynames()
 	h.lazies([]int{150}) // thunks capture the growing accumulators: closure creation is quadratic in their size
 	lap("lazies")
 	if !thorough && len(h.failures) == 0 {
